@@ -314,6 +314,28 @@ def rule_v7(repo, col):
     col.floor("V7.value_path_methods", n, 6)
 
 
+def rule_v8(repo, col):
+    """ad_complement of every semiring sums ALL head weights before it negates the sum: no exit from the summing loop (a prefix that already reaches one would hide a total
+    above one from the in_domain check that follows)"""
+    from ..index import ClassInfo
+    base = repo.cls("problog.evaluator", "Semiring")
+    n = 0
+    for c in sorted(repo.all_classes(), key=lambda c_: (c_.module.name, c_.name)):
+        if ".test" in c.module.name or not any(k is base for k in repo.mro(c) if isinstance(k, ClassInfo)):
+            continue
+        f = c.methods.get("ad_complement")
+        if f is None:
+            continue
+        n += 1
+        loops = [lp for lp in walk_no_nested(f.node) if isinstance(lp, (ast.For, ast.While))]
+        exits = [x for lp in loops for x in ast.walk(lp) if isinstance(x, (ast.Return, ast.Break))]
+        col.decide("V8", f.module, exits[0] if exits else f.node, not exits, "%s.ad_complement sums every head weight" % c.name,
+                   "%s.ad_complement leaves its summing loop early (%s): the remaining head weights are neither added nor checked, so an annotated disjunction whose heads sum to more than "
+                   "one is accepted as soon as a prefix of them sums to exactly one (0.5::h1; 0.5::h2; 0.5::h3.)" % (c.name, norm(exits[0])[:50] if exits else ""),
+                   construct="%s.ad_complement: early exit from the sum" % c.name, function="%s.ad_complement" % c.name)
+    col.floor("V8.ad_complement_implementations", n, 1)
+
+
 def run(repo, col):
     col.rule("V7", "no clamping between the sum of the AD heads and the in_domain test")
     col.rule("V1", "value(): every return inside a [0,1] bounds test, else InvalidValue")
@@ -329,3 +351,5 @@ def run(repo, col):
     rule_v5(repo, col)
     rule_v6(repo, col)
     rule_v7(repo, col)
+    col.rule("V8", "ad_complement sums all heads")
+    rule_v8(repo, col)
